@@ -228,30 +228,50 @@ pub fn check_valid_market(ctx: &mut Ctx, m: &Market, shape: &str) -> Option<FXRa
             }
         }
     }
-    // the market is still complete and arbitrage-free after every quote has been re-marked through `update`
-    // (whatever base it was built with): quoted pairs exactly as re-quoted, crosses = path products
-    {
+    // the market is still complete and arbitrage-free after quotes have been re-marked through `update`
+    // (whatever base it was built with): quoted pairs exactly as re-quoted, crosses = path products.  Three
+    // ways: every quote moved (core update); through the Python-facing update with the full list in which
+    // only some quotes moved and the others are re-submitted exactly as held; and through the Python-facing
+    // update with only the moved quotes
+    let held_quotes = rateslib::verif::fxrates_quotes(&fx);
+    for style in 0..3usize {
         let mut m2 = m.clone();
         let mut ups = vec![];
+        let nq = m2.quotes.len();
+        let moved: Vec<bool> = (0..nq).map(|i| style == 0 || (i as u64 + tr_hash) % 2 == 0).collect();
+        let moved: Vec<bool> = if moved.iter().any(|b| *b) { moved } else { (0..nq).map(|i| i == 0).collect() };
         for (i, q) in m2.quotes.iter_mut().enumerate() {
-            let nv = q.val.value() * (1.0 + 0.25 * ((i % 3) as f64 + 1.0));
-            q.val = QuoteVal::F(nv);
-            ups.push(rateslib::fx::rates::FXRate::try_new(&m.ccys[q.lhs], &m.ccys[q.rhs], rateslib::dual::Number::F64(nv), q.settlement.map(crate::calmodel::to_ndt)).unwrap());
+            if moved[i] {
+                let nv = q.val.value() * (1.0 + 0.25 * ((i % 3) as f64 + 1.0));
+                q.val = QuoteVal::F(nv);
+                ups.push(rateslib::fx::rates::FXRate::try_new(&m.ccys[q.lhs], &m.ccys[q.rhs], rateslib::dual::Number::F64(nv), q.settlement.map(crate::calmodel::to_ndt)).unwrap());
+            } else if style == 1 {
+                let pair = format!("{}{}", m.ccys[q.lhs], m.ccys[q.rhs]);
+                match held_quotes.iter().find(|h| h.0 == pair) {
+                    Some(h) => ups.push(rateslib::fx::rates::FXRate::try_new(&m.ccys[q.lhs], &m.ccys[q.rhs], h.1.clone(), h.2).unwrap()),
+                    None => {
+                        ctx.violation("C09|quoted-pair-not-among-held-quotes", json!({"market": m.describe(), "pair": pair}));
+                        return None;
+                    }
+                }
+            }
         }
+        let label = ["every-quote-moved", "python-layer:some-moved-others-resubmitted-as-held", "python-layer:only-the-moved-quotes"][style];
         let mut fx2 = fx.clone();
         ctx.eval(1);
         ctx.class(&format!("after-update:base-{}", if m.base.is_some() { "given" } else { "none" }));
-        match guarded(|| fx2.update(ups).is_ok()) {
+        ctx.class(&format!("after-update:{}", label));
+        match guarded(|| if style == 0 { fx2.update(ups).is_ok() } else { fx2.verif_py_update(ups).is_ok() }) {
             Caught::Ok(true) => {}
             Caught::Ok(false) => {
-                ctx.violation("C09|after-update|update-of-quoted-pairs-refused", json!({"market": m.describe()}));
+                ctx.violation("C09|after-update|update-of-quoted-pairs-refused", json!({"market": m.describe(), "update": label}));
                 return None;
             }
             Caught::Panic { loc, msg } => {
                 if is_harness_location(&loc) {
                     ctx.harness_error(format!("{} {}", loc, msg));
                 } else {
-                    ctx.violation(&format!("C09|after-update|panic|{}", short_loc(&loc)), json!({"market": m.describe(), "message": msg}));
+                    ctx.violation(&format!("C09|after-update|panic|{}", short_loc(&loc)), json!({"market": m.describe(), "message": msg, "update": label}));
                 }
                 return None;
             }
@@ -271,7 +291,7 @@ pub fn check_valid_market(ctx: &mut Ctx, m: &Market, shape: &str) -> Option<FXRa
                 if !ok {
                     ctx.violation(
                         &format!("C09|after-update|{}", if quoted.is_some() { "quoted-pair-not-exact" } else { "cross-off-path-product" }),
-                        json!({"market_before": m.describe(), "market_after_update": m2.describe(), "pair": format!("{}{}", m.ccys[a], m.ccys[b]), "observed": got, "expected": quoted.or(want)}),
+                        json!({"market_before": m.describe(), "market_after_update": m2.describe(), "update": label, "pair": format!("{}{}", m.ccys[a], m.ccys[b]), "observed": got, "expected": quoted.or(want)}),
                     );
                     return None;
                 }
@@ -526,6 +546,9 @@ impl Prop for C09 {
         let _ = tier;
         v.push("after-update:base-given".to_string());
         v.push("after-update:base-none".to_string());
+        v.push("after-update:every-quote-moved".to_string());
+        v.push("after-update:python-layer:some-moved-others-resubmitted-as-held".to_string());
+        v.push("after-update:python-layer:only-the-moved-quotes".to_string());
         v.push("after-order-switches:2-then-1".to_string());
         v.push("after-order-switches:2-then-0".to_string());
         v.push("python-layer:accessors".to_string());
@@ -538,7 +561,7 @@ impl Prop for C09 {
         tier.pick(100_000, 5_000_000)
     }
     fn rule(&self) -> String {
-        "Enumeration: every labelled tree on n<=4 currencies (quick; thorough also n=5) x every orientation of every quoted pair x every ordering of the quote list x every base choice (none or each currency); rates seeded log-uniform in [1e-4,1e4], some quotes given as Dual/Dual2 with own variables. Sampling: random trees n=2..12 (chains, stars, caterpillars, brooms, Pruefer). For each: all n^2 rates present, quoted pairs bit-exact, diagonal 1, r*r^-1 within 8 ulp, every cross within (pathlen+2)*4 ulp of the BFS path product. Invalid sets derived from valid ones (forest, unquoted base, chord, duplicate / inverse pair, right-count non-trees, inconsistent settlement, empty) must be Err. Every valid market is re-checked after all its quotes have been re-marked through update (quoted pairs exact, crosses = path products). distinct_nontrivial = distinct triangulation traces (sequence of nodes sampled by the real algorithm, from the verif hook) - i.e. how many different paths through the solver the workload drove.".into()
+        "Enumeration: every labelled tree on n<=4 currencies (quick; thorough also n=5) x every orientation of every quoted pair x every ordering of the quote list x every base choice (none or each currency); rates seeded log-uniform in [1e-4,1e4], some quotes given as Dual/Dual2 with own variables. Sampling: random trees n=2..12 (chains, stars, caterpillars, brooms, Pruefer). For each: all n^2 rates present, quoted pairs bit-exact, diagonal 1, r*r^-1 within 8 ulp, every cross within (pathlen+2)*4 ulp of the BFS path product. Invalid sets derived from valid ones (forest, unquoted base, chord, duplicate / inverse pair, right-count non-trees, inconsistent settlement, empty) must be Err. Every valid market is re-checked after its quotes have been re-marked through update - all of them (core), and through the Python-facing update some of them with the others re-submitted exactly as held, or only the moved ones (quoted pairs exact, crosses = path products). distinct_nontrivial = distinct triangulation traces (sequence of nodes sampled by the real algorithm, from the verif hook) - i.e. how many different paths through the solver the workload drove.".into()
     }
     fn assumptions(&self) -> Vec<String> {
         vec!["validity oracle: union-find - the quote multigraph is a spanning tree of all currencies (incl. the base) and settlement dates agree".into(), "the trace hook is used only as coverage evidence, never for a verdict".into()]
